@@ -106,6 +106,10 @@ def one(entry, args, patch=None):
         else:
             checks = args.checks.split(",")
         res["checks"] = {}
+        prev = os.path.join(HERE, "results", mid + ".json")
+        if args.merge and os.path.exists(prev):
+            with open(prev) as f:
+                res["checks"] = json.load(f).get("checks", {})
         for c in checks:
             res["checks"][c] = run_check(c, d, args.tier, args.scale, args.seed)
         res["fired"] = sorted(c for c, r in res["checks"].items() if r["exit"] == 1)
@@ -130,6 +134,7 @@ def main():
     ap.add_argument("--tier", default="quick")
     ap.add_argument("--seed", type=int, default=0)
     ap.add_argument("--jobs", type=int, default=2)
+    ap.add_argument("--merge", action="store_true", help="keep the results of checks not re-run now")
     ap.add_argument("--patch")
     ap.add_argument("--id")
     a = ap.parse_args()
